@@ -157,6 +157,7 @@ type Worker struct {
 	classSig  string // the violation class rapid is currently minimising
 	lastViol  *Violation
 	stateDep  *Violation // a failure that did not repeat once the process's pools had been emptied
+	realViol  *Violation // the first finding of a real-binary arm
 	decode    func(json.RawMessage) (Case, error)
 	start     time.Time
 }
@@ -365,6 +366,9 @@ func (wk *Worker) explore(gen func(t *rapid.T) Case) {
 		if wk.out.Violation == nil && wk.stateDep != nil {
 			wk.out.Violation = wk.stateDep
 		}
+		if wk.out.Violation == nil && wk.realViol != nil {
+			wk.out.Violation = wk.realViol
+		}
 	}()
 	flag.Set("rapid.nofailfile", "true")
 	flag.Set("rapid.checks", strconv.Itoa(wk.Checks))
@@ -443,6 +447,15 @@ func (wk *Worker) evalCase(t *rapid.T, c Case, rs uint64) {
 				p := fmt.Sprintf("%s/%s-known-%s.json", wk.ReplayDir, wk.Prop, hashOf(f.Sig))
 				os.WriteFile(p, wrapReplay(wk.Prop, f.Msg, f.Sig, raw, rs), 0o644)
 				wk.out.KnownReplay[f.Sig] = p
+			}
+			continue
+		}
+		if strings.Contains(f.Sig, "real-binary") {
+			// A finding of a real-binary arm is kept aside: the real program runs under the host's scheduler
+			// and clock, so it is not handed to the shrinker (which needs repeatable failures); it is reported
+			// if the simulated arms of this worker find nothing, and check replays it like any other.
+			if wk.realViol == nil {
+				wk.realViol = &Violation{Property: wk.Prop, Sig: f.Sig, Msg: f.Msg, Case: raw, Seed: rs}
 			}
 			continue
 		}
